@@ -288,7 +288,7 @@ func c06Specs(tier string) []*h.SeqSpec {
 	for _, store := range []string{"mem", "dir", "memdir"} {
 		for pi, pol := range c06Policies(tier) {
 			store, pol := store, pol
-			if store == "memdir" && pi > 0 {
+			if store == "memdir" && pi > 0 && os.Getenv("VERIF_C06_ALLMEMDIR") == "" {
 				// the memory store over a directory that already holds content: only the policy that keeps untagged manifests and
 				// every referrer (what a store does about collectable content it has not been asked for yet is C10's known
 				// finding; with ReferrersWithSubj on, referrers of a subject that lives on disk only were seen to need a second
